@@ -6,6 +6,8 @@ import (
 	"fmt"
 	"go/ast"
 	"go/types"
+
+	"golang.org/x/tools/go/types/typeutil"
 	"os"
 	"sort"
 	"strings"
@@ -15,7 +17,7 @@ func init() {
 	propertyRules["C07"] = []ruleFn{rulePreCommitEnabled, ruleCommitAMEV, rulePreBlockOnce, ruleHeaderAfterPreBlock, ruleCacheObl, ruleDefs}
 	propertyExplain["C07"] = "Anti-MEV phase order at every site: PreCommit sends, the pre-commit handler dispatch and the optional callbacks NewPreBlockFromContext/NewPreCommit/ProcessPreBlock are reachable only with the extension enabled at the current height (enabling predicate checked to be EnablingHeight>=0 ∧ EnablingHeight<=BlockIndex); a Commit is constructed under anti-MEV only with an own PreCommit, an M-of-N current-view PreCommit quorum and the pre-block processed; ProcessPreBlock is called only while its flag is unset and the flag is set only after the callback returned nil; the header is built only after the pre-block. Multi-node recovery interplay is not decided."
 	propertyRules["C05"] = []ruleFn{ruleAcceptOnce, ruleQuiesce, ruleResetCover, ruleViewResetCover, ruleTip, ruleCacheAgree, ruleCacheObl, ruleCachePrune}
-	propertyExplain["C05"] = "ProcessBlock is reachable only while the block-sent flag is unset and the flag is set on every path after a successful callback, cleared only by the height reset (S-ACCEPT-ONCE); every effect site (Context write, typed send other than a recovery message, effectful callback) reachable from OnReceive/OnTimeout/OnTransaction/OnNewTransaction is behind the ¬BlockSent admission (G-QUIESCE); every Context field is assigned or cleared on every view-0 path of the epoch writer except a reasoned table of carry-overs (F-RESET-COVER); ledger-derived fields come from the callbacks (P-TIP); every payload kind diverted to the future cache has a bucket that the initialiser replays and removes (A-CACHE). Retention of inboxes for skipped heights (memory only) is not decided."
+	propertyExplain["C05"] = "ProcessBlock is reachable only while the block-sent flag is unset and the flag is set on every path after a successful callback, cleared only by the height reset (S-ACCEPT-ONCE); every effect site (Context write, typed send other than a recovery message, effectful callback) reachable from OnReceive/OnTimeout/OnTransaction/OnNewTransaction is behind the ¬BlockSent admission (G-QUIESCE); every Context field is assigned or cleared on every view-0 path of the epoch writer except a reasoned table of carry-overs (F-RESET-COVER); ledger-derived fields come from the callbacks (P-TIP); every payload kind diverted to the future cache has a bucket that the initialiser replays and removes (A-CACHE). The map of early payloads is emptied of heights that are over when a height is entered (O-CACHE-PRUNE)."
 	propertyRules["C08"] = []ruleFn{ruleCacheAgree, ruleHeaderAfterPreBlock, ruleRespMatch, ruleInitArms}
 	propertyExplain["C08"] = "Decides only structural necessary conditions named by the anchors: A-CACHE (below), plus the header-after-pre-block order, the purge of mismatching early responses and the arming of the timer on every initialisation. A-CACHE: every kind of early payload is kept in a bucket of the future-message cache and replayed on every initialisation (not only at view 0), and the entered height is removed from the cache. That all nodes decide in view 0 without timeouts quantifies over timer values and multi-node schedules and is not applicable to static analysis."
 }
@@ -1409,6 +1411,9 @@ func ruleCachePrune(c *RC) *RuleResult {
 					if _, isB := info.Uses[id].(*types.Builtin); isB {
 						pruned = fn.Name + " clears the map"
 					}
+				}
+				if f, ok := typeutil.Callee(info, x).(*types.Func); ok && f.Pkg() != nil && f.Pkg().Path() == "maps" && f.Name() == "DeleteFunc" && len(x.Args) == 2 && isMap(info, x.Args[0]) {
+					pruned = fn.Name + " filters the map with maps.DeleteFunc"
 				}
 			}
 			return true
